@@ -624,6 +624,19 @@ def _apply_map_ops(bi, model, ops):
             model.clear()
             model[6] = e6
             model[0] = keep0
+        elif op == "assign_mapping":
+            # the right-hand side is another interval's own mapping object
+            src = gtirb.ByteInterval(size=8, uuid=UUID(int=44))
+            e2, e8 = _mk_expr(2), _mk_expr(8)
+            src.symbolic_expressions[2] = e2
+            src.symbolic_expressions[8] = e8
+            bi.symbolic_expressions = src.symbolic_expressions
+            model.clear()
+            model[2] = e2
+            model[8] = e8
+            e3 = _mk_expr(3)
+            bi.symbolic_expressions[3] = e3          # a later edit must be visible to lookups too
+            model[3] = e3
         elif op == "del_absent":
             for k in (2, 6, 100, 5):
                 if k not in model:
@@ -678,6 +691,33 @@ def se_at(ia: Optional[int], v0: int, start: int, stop: int, step: int) -> bool:
         t = g[i]
         if not (t[0] is bi and t[1] == e[i] and t[2] is model[e[i]]):
             return fail("%s: wrong triple or order at position %d" % (name, i))
+    return done()
+
+
+def se_huge(which: int) -> bool:
+    """
+    pre: 0 <= which < 6
+    post: __return__
+    """
+    # ranges with 2**63 and more members (len() of such a range overflows): concrete spot
+    w = pick(which, 6)
+    with untraced():
+        bi = gtirb.ByteInterval(address=5, size=8, uuid=UUID(int=4))
+        es = {}
+        for k in (0, 3, 7):
+            es[k] = _mk_expr(k)
+            bi.symbolic_expressions[k] = es[k]
+        q = [range(0, 2 ** 64), range(0, 2 ** 63), range(0, 2 ** 64, 2), range(1, 2 ** 63), range(2 ** 63, 2 ** 64), range(6, 2 ** 64, 3)][w]
+        why = None
+        try:
+            got = [(t[1]) for t in bi.symbolic_expressions_at(q)]
+            goto = [(t[1]) for t in bi.symbolic_expressions_at_offset(q)]
+            if got != [k for k in (0, 3, 7) if (5 + k) in q] or goto != [k for k in (0, 3, 7) if k in q]:
+                why = "wrong result for %r" % (q,)
+        except Exception as e:  # noqa: BLE001
+            why = "%r: %s" % (q, type(e).__name__)
+    if why:
+        return fail(why)
     return done()
 
 
